@@ -1,6 +1,8 @@
 CONSTANTS
   Subs = {1, 2}
   RegisterBeforeInit = TRUE
+  Literal = {}
+  ReleaseOnRefusal = TRUE
   Streaming = {}
 INIT Init
 NEXT Next
